@@ -11,7 +11,7 @@ BADINT = [b"x", b"", b"1.5", b"9223372036854775808", b"-9223372036854775809", b"
 CNT = [b"0", b"1", b"2", b"3", b"5", b"100", b"1", b"2", b"9223372036854775807"]
 DIRS = [b"left", b"right", b"LEFT", b"RIGHT", b"Left", b"left", b"right"]
 # a blocking pop that finds nothing waits this long (kept short and rare: the run is sequential)
-TIMEOUTS = [b"0.1", b"0.15", b"0.2", b"0.1", b"0.3"]
+TIMEOUTS = [b"0.1", b"0.15", b"0.2", b"0.1", b"0.3", b"0.000000001", b"1e-10", b"5e-324", b"0.000000004", b"1e-7", b"0.0001"]
 BADTIMEOUTS = [b"-1", b"x", b"", b"-0.5", b"1e400x", b"--1"]
 
 
